@@ -81,6 +81,9 @@ def classify(unit, js, diags, rc):
         res["reason"] = "verus front-end error (unsupported construct / type error in generated unit): " + "\n".join(msgs)[:4000]
         return res
     rustc_errs = [d for d in diags if d.get("level") == "error" and d.get("code")]
+    if not rustc_errs and not vr.get("success") and vr.get("errors", 0) == 0:
+        # verification never started (lexer/parser/mode error): not a verdict
+        rustc_errs = [d for d in diags if d.get("level") == "error"]
     if rustc_errs:
         res["status"] = "undecided"
         res["reason"] = "rustc error in generated unit (extractor/spec problem, not a verdict): " + \
